@@ -1123,8 +1123,17 @@ def _inline_in_function(fn, helpers, chelp, inlined):
                 continue
             h, method, _via, call = site
             ys = [n for n in _walk_fn(h.fn) if isinstance(n, (ast.Yield, ast.YieldFrom))]
-            if not ys or any(isinstance(n, ast.Yield) for n in ys):
+            if not ys:
                 continue
+            plain = [n for n in ys if isinstance(n, ast.Yield)]
+            if plain:
+                # a plain `yield E` hands E to the loop body: only in statement position, and the body must not `continue`
+                # (that would resume the generator, not skip the rest of what stands after the yield)
+                stmt_yields = {id(x.value) for x in _walk_fn(h.fn) if isinstance(x, ast.Expr) and isinstance(x.value, ast.Yield)}
+                if any(id(n) not in stmt_yields or n.value is None for n in plain):
+                    continue
+                if any(isinstance(x, ast.Continue) for b in st.body for x in _walk_stmt(b)):
+                    continue
             if any(isinstance(n, ast.Return) and n.value is not None for n in _walk_fn(h.fn)):
                 continue
             if _break_at_level(st.body):
@@ -1143,6 +1152,9 @@ def _inline_in_function(fn, helpers, chelp, inlined):
                     if isinstance(node.value, ast.YieldFrom):
                         loop = ast.For(target=copy.deepcopy(st.target), iter=node.value.value, body=copy.deepcopy(st.body), orelse=[])
                         return ast.copy_location(loop, node)
+                    if isinstance(node.value, ast.Yield):
+                        bind = ast.Assign(targets=[copy.deepcopy(st.target)], value=node.value.value, lineno=node.lineno)
+                        return [ast.copy_location(bind, node)] + copy.deepcopy(st.body)
                     return node
 
                 def visit_Return(self, node):
@@ -1158,6 +1170,12 @@ def _inline_in_function(fn, helpers, chelp, inlined):
             body_yf = [n for b in st.body for n in _walk_stmt(b) if isinstance(n, ast.YieldFrom)]
             if len(left) != len(body_yf) * sum(1 for n in ys):
                 continue
+            for tgt in ast.walk(wrapper):   # the bindings made from `yield E` store into the loop target
+                if isinstance(tgt, ast.Assign):
+                    for t_ in tgt.targets:
+                        for x in ast.walk(t_):
+                            if isinstance(x, (ast.Name, ast.Tuple, ast.List)) and hasattr(x, "ctx"):
+                                x.ctx = ast.Store()
             new = pro + wrapper.body
             for n in new:
                 ast.fix_missing_locations(n)
@@ -1445,6 +1463,64 @@ def unroll_singleton_loops(fn):
                 lst[i:i + 1] = [bind] + st.body
                 n += 1
                 continue
+            i += 1
+    return n
+
+
+# ----------------------------------------------------------------------- N21 loops over a generator expression
+def unfold_genexp_loops(fn):
+    """`for T in (E for v in S if c): BODY` is `for v in S: if c: T = E; BODY` (one generator clause; BODY has no continue /
+    break at its level and does not use v's name for something else)"""
+    n = 0
+    for owner, field, lst in _stmt_lists(fn):
+        for i, st in enumerate(lst):
+            if not (isinstance(st, ast.For) and isinstance(st.iter, ast.GeneratorExp) and len(st.iter.generators) == 1 and not st.orelse):
+                continue
+            g = st.iter.generators[0]
+            if g.is_async or _break_at_level(st.body) or any(isinstance(x, ast.Continue) for b in st.body for x in _walk_stmt(b)):
+                continue
+            inner = {x.id for x in ast.walk(g.target) if isinstance(x, ast.Name)}
+            outer_names = {x.id for b in st.body for x in ast.walk(b) if isinstance(x, ast.Name)} | \
+                {x.id for x in ast.walk(st.target) if isinstance(x, ast.Name)}
+            if inner & outer_names:
+                continue
+            bind = ast.copy_location(ast.Assign(targets=[st.target], value=st.iter.elt, lineno=st.lineno), st)
+            body = [bind] + st.body
+            for c in reversed(g.ifs):
+                body = [ast.copy_location(ast.If(test=c, body=body, orelse=[]), st)]
+            tgt = copy.deepcopy(g.target)
+            for x in ast.walk(tgt):
+                if hasattr(x, "ctx"):
+                    x.ctx = ast.Store()
+            new = ast.copy_location(ast.For(target=tgt, iter=g.iter, body=body, orelse=[]), st)
+            ast.fix_missing_locations(new)
+            lst[i] = new
+            n += 1
+    return n
+
+
+def split_tuple_assignments(fn, candidates):
+    """`a, b = (x, y)` with a display of the same length and effect-free elements that do not mention a or b is `a = x; b = y`
+    (only when one of the targets is a new local: it then becomes a candidate for forward substitution)"""
+    n = 0
+    for owner, field, lst in _stmt_lists(fn):
+        i = 0
+        while i < len(lst):
+            st = lst[i]
+            if isinstance(st, ast.Assign) and len(st.targets) == 1 and isinstance(st.targets[0], ast.Tuple) \
+                    and isinstance(st.value, ast.Tuple) and len(st.value.elts) == len(st.targets[0].elts) \
+                    and all(isinstance(t, ast.Name) for t in st.targets[0].elts) and all(is_pure(v) for v in st.value.elts):
+                names = {t.id for t in st.targets[0].elts}
+                used = {x.id for v in st.value.elts for x in ast.walk(v) if isinstance(x, ast.Name)}
+                if not (names & used) and len(names) == len(st.targets[0].elts):
+                    new = [ast.copy_location(ast.Assign(targets=[ast.Name(id=t.id, ctx=ast.Store())], value=v, lineno=st.lineno), st)
+                           for t, v in zip(st.targets[0].elts, st.value.elts)]
+                    for x in new:
+                        ast.fix_missing_locations(x)
+                    lst[i:i + 1] = new
+                    n += 1
+                    i += len(new)
+                    continue
             i += 1
     return n
 
@@ -2056,6 +2132,10 @@ def normalise(tree, modname, shape_all=None, keep=frozenset()):
             continue
         if unroll_singleton_loops(fn):
             log.setdefault("unrolled", []).append(q)
+        if unfold_genexp_loops(fn):
+            log.setdefault("genexp_loops", []).append(q)
+        if (fn_locals(fn) - set(pinned["locals"])) and split_tuple_assignments(fn, fn_locals(fn) - set(pinned["locals"])):
+            log.setdefault("tuple_splits", []).append(q)
         new_locals = fn_locals(fn) - set(pinned["locals"])
         if new_locals:
             kd = expand_keyword_dicts(fn, new_locals)
